@@ -722,7 +722,7 @@ _KMN = [(1, 6), (2, 5), (2, 6), (3, 4), (3, 5), (3, 6), (4, 4), (4, 5), (2, 7)]
 # the shape in the comment at ismags.py:872: two centres joined, two legs of length two each
 _FABIAN = (10, [(0, 1), (0, 2), (2, 3), (0, 4), (4, 5), (1, 6), (6, 7), (1, 8), (8, 9)])
 FAMILIES = ['cycle', 'path', 'star', 'spider', 'tree', 'kmn', 'doubled-tree', 'fabian', 'union', 'prism', 'wheel',
-            'cube', 'petersen', 'complete']
+            'cube', 'petersen', 'complete', 'cycles']
 
 
 @st.composite
@@ -782,6 +782,12 @@ def _family(draw, name):
             else:
                 parts[-1] = other
         return _union(parts)
+    if name == 'cycles':
+        # components that colour refinement cannot tell apart although they are not isomorphic (C5 + C3, C6 + C3 + C3)
+        lengths = draw(st.lists(st.integers(3, 6), min_size=2, max_size=3))
+        while sum(lengths) > 12:
+            lengths = lengths[:-1]
+        return _union([_cycle(k) for k in lengths])
     if name == 'prism':
         return _prism(draw(st.integers(3, 6)))
     if name == 'wheel':
@@ -966,19 +972,23 @@ def _strategy_lcs(tier):
     return _strategy_lcs_case(tier)
 
 
+# One case takes at most a few seconds on the unchanged tree (slowest_case_s in the evidence).  A case that runs for
+# three minutes is given up as inconclusive (class inconclusive:case-exceeded-180s), never reported as a violation.
+CASE_TIMEOUT = 180
+
 PARTS = [
-    Part('exhaustive', run_case, enumerate=_enumerate_exhaustive,
+    Part('exhaustive', run_case, case_timeout=CASE_TIMEOUT, enumerate=_enumerate_exhaustive,
          floors={'match': 0.05, 'A>=2': 0.03, 'several-orbits': 0.01, 'lcs-shrunk': 0.3, 'lcs-shrunk-A>=2': 0.2,
                  'node-colours': 0.2, 'edge-colours': 0.05}),
-    Part('random', run_case, strategy=_strategy_random,
+    Part('random', run_case, case_timeout=CASE_TIMEOUT, strategy=_strategy_random,
          examples={'quick': 1600, 'thorough': 40000},
          floors={'match': 0.4, 'no-match': 0.04, 'A>=2': 0.1, 'several-orbits': 0.05, 'node-colours': 0.08,
                  'edge-colours': 0.03, 'cache': 0.05}),
-    Part('symmetric', run_case, strategy=_strategy_symmetric,
+    Part('symmetric', run_case, case_timeout=CASE_TIMEOUT, strategy=_strategy_symmetric,
          examples={'quick': 1600, 'thorough': 32000},
          floors={'match': 0.4, 'no-match': 0.05, 'A>=12': 0.15, 'A>=100': 0.04, 'several-orbits': 0.04,
                  'node-colours': 0.1, 'edge-colours': 0.08, 'cache': 0.05, 'more-hosts': 0.8}),
-    Part('lcs', run_case, strategy=_strategy_lcs,
+    Part('lcs', run_case, case_timeout=CASE_TIMEOUT, strategy=_strategy_lcs,
          examples={'quick': 1200, 'thorough': 30000},
          floors={'lcs-shrunk': 0.4, 'lcs-shrunk>=2': 0.15, 'lcs-shrunk-A>=2': 0.25, 'lcs-reduced': 0.3, 'lcs-full': 0.08,
                  'node-colours': 0.1, 'edge-colours': 0.04}),
